@@ -20,6 +20,8 @@ pub mod c12;
 pub mod c13;
 pub mod arith;
 pub mod c14;
+#[cfg(feature = "fv")]
+pub mod c15;
 pub mod c16;
 pub mod shared;
 
@@ -56,6 +58,8 @@ pub fn run(what: &str, ctx: &Ctx, _extra: &[String]) -> Option<Report> {
         "C12" => c12::run(ctx),
         "C13" => c13::run(ctx),
         "C16" => c16::run(ctx),
+        #[cfg(feature = "fv")]
+        "C15" => c15::run(ctx),
         _ => return None,
     })
 }
